@@ -125,7 +125,7 @@ fn process_slice<'a, T: Queryable>(
 /// - Replaces `\\` with `\`
 /// - Replaces `\/` with `/`
 /// - Preserves other valid escapes like `\"` and `\'`
-fn normalize_json_key(input: &str) -> String {
+pub(crate) fn normalize_json_key(input: &str) -> String {
     let mut result = String::with_capacity(input.len());
     let mut chars = input.chars().peekable();
 
